@@ -36,19 +36,19 @@ func with[T any](f func(*mrand.Rand) T) T {
 // Seed is what math/rand.Seed did: the code under test fixes the sequence itself.
 func Seed(seed int64) { mu.Lock(); r = mrand.New(mrand.NewSource(seed)); mu.Unlock() }
 
-func Int() int               { return with(func(r *mrand.Rand) int { return r.Int() }) }
-func Intn(n int) int         { return with(func(r *mrand.Rand) int { return r.Intn(n) }) }
-func Int31() int32           { return with(func(r *mrand.Rand) int32 { return r.Int31() }) }
-func Int31n(n int32) int32   { return with(func(r *mrand.Rand) int32 { return r.Int31n(n) }) }
-func Int63() int64           { return with(func(r *mrand.Rand) int64 { return r.Int63() }) }
-func Int63n(n int64) int64   { return with(func(r *mrand.Rand) int64 { return r.Int63n(n) }) }
-func Uint32() uint32         { return with(func(r *mrand.Rand) uint32 { return r.Uint32() }) }
-func Uint64() uint64         { return with(func(r *mrand.Rand) uint64 { return r.Uint64() }) }
-func Float32() float32       { return with(func(r *mrand.Rand) float32 { return r.Float32() }) }
-func Float64() float64       { return with(func(r *mrand.Rand) float64 { return r.Float64() }) }
-func NormFloat64() float64   { return with(func(r *mrand.Rand) float64 { return r.NormFloat64() }) }
-func ExpFloat64() float64    { return with(func(r *mrand.Rand) float64 { return r.ExpFloat64() }) }
-func Perm(n int) []int       { return with(func(r *mrand.Rand) []int { return r.Perm(n) }) }
+func Int() int             { return with(func(r *mrand.Rand) int { return r.Int() }) }
+func Intn(n int) int       { return with(func(r *mrand.Rand) int { return r.Intn(n) }) }
+func Int31() int32         { return with(func(r *mrand.Rand) int32 { return r.Int31() }) }
+func Int31n(n int32) int32 { return with(func(r *mrand.Rand) int32 { return r.Int31n(n) }) }
+func Int63() int64         { return with(func(r *mrand.Rand) int64 { return r.Int63() }) }
+func Int63n(n int64) int64 { return with(func(r *mrand.Rand) int64 { return r.Int63n(n) }) }
+func Uint32() uint32       { return with(func(r *mrand.Rand) uint32 { return r.Uint32() }) }
+func Uint64() uint64       { return with(func(r *mrand.Rand) uint64 { return r.Uint64() }) }
+func Float32() float32     { return with(func(r *mrand.Rand) float32 { return r.Float32() }) }
+func Float64() float64     { return with(func(r *mrand.Rand) float64 { return r.Float64() }) }
+func NormFloat64() float64 { return with(func(r *mrand.Rand) float64 { return r.NormFloat64() }) }
+func ExpFloat64() float64  { return with(func(r *mrand.Rand) float64 { return r.ExpFloat64() }) }
+func Perm(n int) []int     { return with(func(r *mrand.Rand) []int { return r.Perm(n) }) }
 func Shuffle(n int, swap func(i, j int)) {
 	with(func(r *mrand.Rand) int { r.Shuffle(n, swap); return 0 })
 }
